@@ -4,6 +4,7 @@ from __future__ import annotations
 
 import json
 import os
+import re
 
 from . import common, corpus, cxx, mut, values
 from .common import Inconclusive
@@ -51,7 +52,7 @@ class PyEndpoint:
         w = self.m.py()
         if not w.hello.get("ready"):
             return Result(3, None, b"", "python import failed: %s\n%s" % (w.hello.get("error"), w.hello.get("tb", "")),
-                          errclass="ImportFailed" + (":ndarray-of-fixed-vector-annotation" if "Too many arguments for numpy.ndarray" in str(w.hello.get("error")) else ""))
+                          errclass="ImportFailed" + py_import_errclass(w.hello.get("error")))
         res, out = w.copy(proto, infmt, outfmt, data, mode=kw.get("mode", self.mode), in_how=self.in_how, out_how=self.out_how)
         if res.get("died"):
             return Result(None, 9, out, res.get("error", ""), errclass="worker-died")
@@ -59,6 +60,16 @@ class PyEndpoint:
             return Result(0, None, out, "")
         return Result(3, None, out, res.get("error", "") + "\n" + res.get("tb", ""),
                       errclass="%s@%s" % (res.get("etype", "?"), res.get("where", "?")))
+
+
+def py_import_errclass(err: str) -> str:
+    """identity of known import failures of generated Python packages"""
+    err = str(err)
+    if "Too many arguments for numpy.ndarray" in err:
+        return ":ndarray-of-fixed-vector-annotation"
+    if re.search(r"cannot import name '\w+Or\w+' from '[\w.]+\.types'", err):
+        return ":missing-union-class"
+    return ""
 
 
 _NUMERIC = {"bool", "int8", "uint8", "int16", "uint16", "int32", "uint32", "int64", "uint64", "size", "float32", "float64",
